@@ -166,22 +166,6 @@ theorem genRecursiveUnwrap_eq (f : WrapFn α) (k : Kind) (tag : Nat) (b : List N
 /-! ## `non_trainable` -/
 
 mutual
-/-- hand model of `non_trainable`: every inexact array that is not already under a `NonTrainable` gets its own `NonTrainable` -/
-def nonTrainableT : Tree α → Tree α
-  | .none => .none
-  | .arr id ix a => if ix then .wrap .nonTrainable id [] [.arr id ix a] else .arr id ix a
-  | .static id => .static id
-  | .node cs => .node (nonTrainableTL cs)
-  | .wrap k tag b cs =>
-      match k with
-      | .nonTrainable => .wrap k tag b cs
-      | _ => .wrap k tag b (nonTrainableTL cs)
-def nonTrainableTL : List (Tree α) → List (Tree α)
-  | [] => []
-  | c :: cs => nonTrainableT c :: nonTrainableTL cs
-end
-
-mutual
 theorem genNonTrainable_eq : ∀ t : Tree α, GenUnwrap.nonTrainable t = nonTrainableT t
   | .none => by simp [GenUnwrap.nonTrainable, treeMap, nonTrainableT]
   | .arr id ix a => by
